@@ -279,9 +279,14 @@ Proof.
   - apply bytes_eqb_eq in E. rewrite E, N. reflexivity.
   - destruct (bytes_eqb (k_key k1) k2); [reflexivity|exact IH].
 Qed.
+Lemma kv_get_purge_other m k k2 : bytes_eqb k k2 = false -> kv_get (kv_purge m k) k2 = kv_get m k2.
+Proof.
+  intro N. unfold kv_purge. destruct (kv_get m k) as [[k' [| | |]]|]; try reflexivity.
+  apply kv_get_remove_other. exact N.
+Qed.
 Lemma kv_get_items_insert_other m k k2 v : bytes_eqb k k2 = false -> kv_get (items_insert m k v) k2 = kv_get m k2.
 Proof.
-  intro N. unfold items_insert. destruct (kv_get m k).
+  intro N. unfold items_insert. rewrite <- (kv_get_purge_other m k k2 N). destruct (kv_get (kv_purge m k) k).
   - apply kv_get_set_fmt_other. exact N.
   - apply kv_get_push_other. exact N.
 Qed.
@@ -648,8 +653,17 @@ Proof. apply kv_get_push_other. Qed.
 Lemma entry_or_none_fst_other items k k2 :
   bytes_eqb k k2 = false -> kv_get (fst (entry_or_none items k)) k2 = kv_get items k2.
 Proof.
-  intro N. unfold entry_or_none. destruct (kv_get items k) as [[k' i]|]; simpl; [reflexivity|].
+  intro N. unfold entry_or_none. rewrite <- (kv_get_purge_other items k k2 N).
+  destruct (kv_get (kv_purge items k) k) as [[k' i]|]; simpl; [reflexivity|].
   apply kv_get_push_other. exact N.
+Qed.
+
+(* the entry under k holds something: nothing is dropped, the slot handed out is that entry *)
+Lemma entry_or_none_same items k k' i :
+  kv_get items k = Some (k', i) -> i <> INone -> entry_or_none items k = (items, i).
+Proof.
+  intros G Hi. unfold entry_or_none, kv_purge. rewrite G.
+  destruct i as [|v|t|ts sp]; [contradiction| | |]; rewrite G; reflexivity.
 Qed.
 
 Lemma kv_get_set_same m k k' i v : kv_get m k = Some (k', i) -> kv_get (kv_set m k v) k = Some (k', v).
@@ -678,8 +692,12 @@ Proof.
       unfold entry_of in *. simpl in *. unfold is_prefix in Hp. simpl in Hp.
       destruct (bytes_eqb k k2) eqn:Ek.
       * apply bytes_eqb_eq in Ek. subst k2.
-        unfold entry_or_none in EO. destruct (kv_get items k) as [[k' i]|] eqn:G; [|discriminate].
-        injection EO as <- <-. rewrite (kv_get_set_same _ _ _ _ _ G).
+        destruct (kv_get items k) as [[k' i]|] eqn:G; [|discriminate].
+        assert (Hi : i <> INone).
+        { intro; subst i. destruct q as [|[k2|n] q]; simpl in He; try discriminate.
+          injection He as <-. apply Hn. reflexivity. }
+        rewrite (entry_or_none_same _ _ _ _ G Hi) in EO. injection EO as <- <-.
+        rewrite (kv_get_set_same _ _ _ _ _ G).
         apply (IH _ _ E q (Some k') e); auto.
       * rewrite kv_get_set_other by exact Ek.
         replace m with (fst (entry_or_none items k)) by (rewrite EO; reflexivity).
@@ -690,8 +708,12 @@ Proof.
       unfold entry_of in *. simpl in *. unfold is_prefix in Hp. simpl in Hp.
       destruct (bytes_eqb k k2) eqn:Ek.
       * apply bytes_eqb_eq in Ek. subst k2.
-        unfold entry_or_none in EO. destruct (kv_get items k) as [[k' i]|] eqn:G; [|discriminate].
-        injection EO as <- <-. rewrite (kv_get_set_same _ _ _ _ _ G).
+        destruct (kv_get items k) as [[k' i]|] eqn:G; [|discriminate].
+        assert (Hi : i <> INone).
+        { intro; subst i. destruct q as [|[k2|n] q]; simpl in He; try discriminate.
+          injection He as <-. apply Hn. reflexivity. }
+        rewrite (entry_or_none_same _ _ _ _ G Hi) in EO. injection EO as <- <-.
+        rewrite (kv_get_set_same _ _ _ _ _ G).
         apply (IH _ _ E q (Some k') e); auto.
       * rewrite kv_get_set_other by exact Ek.
         replace m with (fst (entry_or_none items k)) by (rewrite EO; reflexivity).
